@@ -1526,6 +1526,15 @@ def constrain_sum_bounded(x: np.array, s: float, lb: np.array, ub: np.array) -> 
     """
     tolerance = 1e-6
 
+    if s == 0:
+        # The values are normalized by the target sum below, which is not possible if the target is zero.
+        # With a total of zero there is nothing to distribute, so the allocation is all zeros (provided the bounds allow that)
+        if np.all(lb <= 0) and np.all(ub >= 0):
+            return np.zeros(x.shape)
+        else:
+            logger.warning("constrain_sum_bounded() failed - rejecting proposed parameters")
+            raise FailedConstraint()
+
     # Normalize values
     x0_scaled = x / (x.sum() or 1)  # Normalize the initial values, unless they sum to 0 (i.e., they are all zero)
     lb_scaled = lb / s
